@@ -6,7 +6,10 @@ ROOT = os.path.dirname(os.path.dirname(os.path.abspath(__file__)))
 CHECKS = {
  "C01": ("round-trip monitor: decode(encode(v)) ok, re-encode byte-identical, library PartialEq, hex path == bytes path, over typed generators (all 2^18 body presence masks, width lattice, sized random values of ~125 types)", "4/C01"),
  "C03": ("independent CBOR reader + schema-directed Conway CDDL validator + encoding-discipline checker (vkit, shares no code with the library or cbor_event) run over the bytes the library emits for typed values and builder transactions", "4/C03"),
+ "C11": ("own address codecs (header/var-nat/Bech32/Base58/CRC32/Byron CBOR written with the independent CBOR writer) and a three-valued reference classifier (must-accept / must-reject / don't-care) compared with the stand-alone parsers on all 256 headers x lengths 0..=80, and with the decoders of outputs/bodies/transactions/UTxOs embedding the same byte strings", "4/C11"),
+ "C12": ("signatures verified with cryptoxide's Ed25519 verifier called directly (positive and mutated-negative cases), derived keys compared byte-for-byte with the ed25519-bip32 crate, encodings decoded with own Bech32/hex codecs, EMIP-3 container recomputed with cryptoxide (PBKDF2 + ChaCha20-Poly1305) and tampered bit by bit", "4/C12"),
  "C14": ("exact big-integer / map-model reference for every arithmetic and conversion operation of BigNum, Int, BigInt, Value, MultiAsset, Mint, MintBuilder; release build and overflow-checking build", "4/C14"),
+ "C17": ("JSON round-trip monitors: metadata <-> JSON under the three schemas (order-normalised for NoConversions, exact for DetailedSchema), per-schema normal-form JSON grammars, own CBOR->JSON reading of each documented schema as cross-check, Plutus datums through DetailedSchema, chunked arbitrary bytes for every length 0..=1000, out-of-schema documents that must be refused", "4/C17"),
  "C20": ("third, independent deposit/refund table (written from the ledger rules, evaluated on the emitted body bytes re-read by the independent CBOR reader) compared with the stand-alone helpers and with TransactionBuilder::get_deposit/get_implicit_input; all 19 certificate kinds alone and in ordered pairs exhaustively, random sequences, totals steered to the 2^64 edge", "4/C20"),
  "C15": ("exact-rational reference (tier-by-tier recursion for the reference-script fee, a different algorithm from the library's closed form) compared with the fee functions on lattice/exhaustive-edge/random arguments", "4/C15"),
 }
